@@ -162,6 +162,20 @@ CLAIMED.update({
               "5/C16", "save/open/QueryWav file I/O (wave, struct) and binary64 rounding of time*rate are exercised, not modelled; times enter the model as the exact rational value of the float."),
 })
 
+CLAIMED.update({
+    "C17": _c("Proof: Props/C17.v shows that specifying both lists is rejected, that invertIntervalList returns exactly the gaps of a "
+              "well-formed interval list, that the keep/delete marking is the time-ordered interleaving of the given intervals (with "
+              "their label) and their gaps (with the other label) and tiles [0,duration], that reading along a tiling with a "
+              "replacement generator keeps the original length and every kept sample's position, that without replacement exactly "
+              "the kept stretches are returned in order, that a boundary on a sample position maps to that sample, that times beyond "
+              "the recording are rejected, and the silence sample count.  _computeKeepDeleteIntervals and readFramesAtTimes (on real "
+              ".wav files, also after earlier reads of the same file object) are compared with the model and with an index-set "
+              "specification written from the property text inside Coq; every file written by extractSubwav / splitAudioOnTier is "
+              "opened and compared sample by sample, with parameters, names, cropped-TextGrid span and label.",
+              "Coq proof (sorted-permutation uniqueness for the merge of intervals and gaps, tiling induction) + in-Coq differential correspondence and oracle + file-level evaluation",
+              "5/C17", "partial: file outputs (wave module, file names, cropped TextGrids) and the sine generator's values are evaluated, not modelled."),
+})
+
 PENDING = {}
 
 
